@@ -30,7 +30,8 @@ class CallMixin:
         # spec vocabulary
         if d in SPEC_FORMS and (self.spec_mode or d in ("ghost",)):
             return getattr(self, "spec_" + d)(node)
-        if d is not None and d in self.reg.specfns:
+        if d is not None and d in self.reg.specfns and (self.spec_mode or d not in self.reg.contracts):
+            # (in code, a repository function with a contract wins over a spec function of the same name)
             return self.call_specfn(self.reg.specfns[d], node)
         if isinstance(node.func, ast.Name):
             name = node.func.id
@@ -177,6 +178,8 @@ class CallMixin:
 
             inv = _istr_inv()(v.t)
             self.ctx.assume(z3.Implies(strict, inv == z3.If(neg, -n, n)))
+            # a plain numeral (no sign) decodes to a non-negative integer
+            self.ctx.assume(z3.Implies(z3.InRe(v.t, z3.Plus(z3.Range("0", "9"))), inv >= 0))
             return SV(TInt, z3.If(strict, inv, other))
         if v.ty is TReal:
             return SV(TInt, z3.ToInt(v.t))
@@ -253,6 +256,12 @@ class CallMixin:
             return self.enum_set(v, ordered=None)
         if v.py is not None and v.py[0] == "keys":
             return self.enum_set(SV(TSet(v.py[1].ty.key), v.py[1].ty.dom(v.py[1].t)), ordered=None)
+        if isinstance(v.ty, TTuple) and v.ty.elems and all(e == v.ty.elems[0] for e in v.ty.elems):
+            ty = TList(v.ty.elems[0])
+            L = self.empty_list(ty)
+            for i in range(len(v.ty.elems)):
+                L = self.list_append(L, SV(v.ty.elems[0], v.ty.get(v.t, i)))
+            return L
         raise Unsupported(f"list() of {v.ty}", node)
 
     def bi_tuple(self, node):
@@ -861,6 +870,26 @@ class CallMixin:
             return r
         if attr == "isdigit":
             return mk_bool(z3.InRe(s, z3.Plus(z3.Range("0", "9"))))
+        if attr == "encode" and node.args and isinstance(node.args[0], ast.Constant) and \
+                str(node.args[0].value).lower().replace("_", "-") in ("latin-1", "latin1", "iso-8859-1"):
+            # bytes are modelled as the latin-1 text they decode to: encoding is the identity on code points 0..255
+            lat = z3.InRe(s, z3.Star(z3.Range(chr(0), chr(255))))
+            errors = None
+            if len(node.args) > 1:
+                errors = ast.literal_eval(node.args[1])
+            for kw in node.keywords:
+                if kw.arg == "errors":
+                    errors = ast.literal_eval(kw.value)
+            if errors in (None, "strict"):
+                self.may_raise("UnicodeEncodeError", lat, node, "encode latin-1")
+                return SV(TStr, s)
+            key = "uf:latin1_" + errors
+            if key not in sorts._cache:
+                sorts._cache[key] = z3.Function("py_latin1_" + errors, z3.StringSort(), z3.StringSort())
+            r = sorts._cache[key](s)
+            self.ctx.assume(z3.InRe(r, z3.Star(z3.Range(chr(0), chr(255)))))
+            self.ctx.assume(z3.Implies(lat, r == s))
+            return SV(TStr, r)
         if attr == "encode" or attr == "decode":
             return SV(TStr, s)
         if attr == "find":
@@ -1070,6 +1099,11 @@ class CallMixin:
         rx = z3.Concat(*parts) if len(parts) > 1 else parts[0]
         return mk_bool(z3.InRe(s_.t, rx))
 
+    def spec_matches(self, node):
+        """matches(s, r'regex'): s fully matches the (Python-syntax) regular expression; classes are over code points 0..255."""
+        s_ = self.eval(node.args[0])
+        return mk_bool(z3.InRe(s_.t, py_regex_to_z3(ast.literal_eval(node.args[1]))))
+
     def spec_local(self, node):
         """local('n'): value of the function's local variable n at the exit being checked."""
         name = ast.literal_eval(node.args[0])
@@ -1223,7 +1257,7 @@ _EMPTY_SET = _EmptyS()
 
 SPEC_FORMS = {
     "forall", "exists", "implies", "iff", "ite", "old", "asc", "desc", "distinct", "elems", "dom", "card",
-    "subset", "empty_set", "is_none", "some", "clock", "raised", "ghost", "get", "int_of", "str_of", "lpre", "pos", "eq_ci", "local", "list_of", "single", "same", "is_numeral", "cur", "cur_path",
+    "subset", "empty_set", "is_none", "some", "clock", "raised", "ghost", "get", "int_of", "str_of", "lpre", "pos", "eq_ci", "local", "list_of", "single", "same", "is_numeral", "cur", "cur_path", "matches",
 }
 
 import itertools
@@ -1242,3 +1276,69 @@ def _case_fn(kind: str):
     if kind not in _case_cache:
         _case_cache[kind] = z3.Function("str_" + kind, z3.StringSort(), z3.StringSort())
     return _case_cache[kind]
+
+
+def py_regex_to_z3(pattern: str):
+    """Python regex (literals, classes, ranges, negated classes, ., |, groups, * + ? {m,n}) -> z3 RegLan, full-match semantics.
+    The universe of `.` and of negated classes is code points 0..255 (latin-1 text, i.e. bytes)."""
+    import re._parser as sp
+    import re._constants as sc
+
+    ALL = z3.Range(chr(0), chr(255))
+
+    def lit(c):
+        return z3.Re(chr(c))
+
+    def union(xs):
+        xs = list(xs)
+        if not xs:
+            return z3.Empty(z3.ReSort(z3.StringSort()))
+        return xs[0] if len(xs) == 1 else z3.Union(*xs)
+
+    def concat(xs):
+        xs = list(xs)
+        if not xs:
+            return z3.Re("")
+        return xs[0] if len(xs) == 1 else z3.Concat(*xs)
+
+    def cls_item(op, av):
+        if op is sc.LITERAL:
+            return lit(av)
+        if op is sc.RANGE:
+            return z3.Range(chr(av[0]), chr(av[1]))
+        if op is sc.CATEGORY:
+            if av is sc.CATEGORY_DIGIT:
+                return z3.Range("0", "9")
+            if av is sc.CATEGORY_SPACE:
+                return union(lit(ord(c)) for c in " \t\n\r\f\v")
+        raise ValueError(f"regex class item {op} {av}")
+
+    def conv(seq):
+        out = []
+        for op, av in seq:
+            if op is sc.LITERAL:
+                out.append(lit(av))
+            elif op is sc.NOT_LITERAL:
+                out.append(z3.Intersect(ALL, z3.Complement(lit(av))))
+            elif op is sc.ANY:
+                out.append(ALL)
+            elif op is sc.IN:
+                neg = bool(av) and av[0][0] is sc.NEGATE
+                items = union(cls_item(o, a) for o, a in (av[1:] if neg else av))
+                out.append(z3.Intersect(ALL, z3.Complement(items)) if neg else items)
+            elif op is sc.BRANCH:
+                out.append(union(conv(b) for b in av[1]))
+            elif op is sc.SUBPATTERN:
+                out.append(conv(av[3]))
+            elif op in (sc.MAX_REPEAT, sc.MIN_REPEAT):
+                lo, hi, body = av
+                r = conv(body)
+                if hi is sc.MAXREPEAT:
+                    out.append(z3.Star(r) if lo == 0 else z3.Plus(r) if lo == 1 else z3.Concat(z3.Loop(r, lo, lo), z3.Star(r)))
+                else:
+                    out.append(z3.Option(r) if (lo, hi) == (0, 1) else z3.Loop(r, lo, hi))
+            else:
+                raise ValueError(f"regex construct {op}")
+        return concat(out)
+
+    return conv(sp.parse(pattern))
